@@ -32,3 +32,15 @@ package benchfmt
 //@     invariant fresh(new) && new != nil && unchanged()
 //@     invariant forall k string :: visited(k) ==> has(l, k) && has(new, k) && new[k] == l[k]
 //@     invariant forall k string :: has(new, k) ==> has(l, k) && new[k] == l[k]
+
+// Keys: exactly the keys of the label set, ascending.
+//@ func (l Labels) Keys() (r []string)
+//@   props C19
+//@   opt allocates
+//@   ensures forall a int, b int :: 0 <= a <= b < len(r) ==> r[a] <= r[b]
+//@   ensures forall i int :: 0 <= i < len(r) ==> has(l, r[i])
+//@   ensures forall k string :: has(l, k) ==> exists i int :: 0 <= i < len(r) && r[i] == k
+//@   loop 1:
+//@     invariant unchanged() && (out == nil || fresh(out))
+//@     invariant forall i int :: 0 <= i < len(out) ==> has(l, out[i])
+//@     invariant forall k string :: visited(k) ==> exists i int :: 0 <= i < len(out) && out[i] == k
